@@ -32,6 +32,7 @@ def main():
     ap.add_argument("--tier", default=os.environ.get("VERIF_TIER", "quick"), choices=["quick", "thorough"])
     ap.add_argument("--replay", default=None)
     a = ap.parse_args()
+    os.environ["VERIF_TIER_NOW"] = a.tier
     try:
         import checks
         fn = getattr(checks, "check_" + a.prop, None)
